@@ -163,6 +163,46 @@ func sourcesOf(pf *parserFacts, v ssa.Value, leaves map[*types.Var]string) (data
 	}
 	curFn := (*ssa.Function)(nil)
 	collectTerm := func(t *Term, into map[string]bool) { collectTermIn(curFn, t, into, 0) }
+	// a condition computed by a callback the helper was given (`if match(item)`): what the callbacks passed at the call
+	// sites compute their result from decides
+	cbSeen := map[ssa.Value]bool{}
+	ctlOfCallback := func(cond ssa.Value) {
+		for {
+			u, ok := cond.(*ssa.UnOp)
+			if !ok || u.Op != token.NOT {
+				break
+			}
+			cond = u.X
+		}
+		call, ok := cond.(*ssa.Call)
+		if !ok || call.Call.IsInvoke() || call.Call.StaticCallee() != nil || cbSeen[call] {
+			return
+		}
+		cbSeen[call] = true
+		targets, ok := paramFuncTargets(pf.p, call.Call.Value)
+		if !ok {
+			targets, ok = localFuncTargets(call.Call.Value)
+		}
+		if !ok {
+			return
+		}
+		for _, tf := range targets {
+			if tf == nil || !pf.region[topFunc(tf)] {
+				continue
+			}
+			for _, b := range tf.Blocks {
+				if r, isRet := b.Instrs[len(b.Instrs)-1].(*ssa.Return); isRet && len(r.Results) == 1 && b != tf.Recover {
+					d2, c2 := sourcesOf(pf, r.Results[0], leaves)
+					for k := range d2 {
+						ctl[k] = true
+					}
+					for k := range c2 {
+						ctl[k] = true
+					}
+				}
+			}
+		}
+	}
 	var rec func(v ssa.Value, depth int)
 	rec = func(v ssa.Value, depth int) {
 		if v == nil || seen[v] || depth > 12 {
@@ -210,6 +250,7 @@ func sourcesOf(pf *parserFacts, v ssa.Value, leaves map[*types.Var]string) (data
 				}
 				if ifi, ok := pred.Instrs[len(pred.Instrs)-1].(*ssa.If); ok {
 					collectTerm(vw.Term(ifi.Cond), ctl)
+					ctlOfCallback(ifi.Cond)
 				}
 			}
 		case *ssa.Convert:
